@@ -83,6 +83,20 @@ Proof. intros es r wt rest dt. exact (timeout_closes cap T30 (final es) r wt res
 
 Theorem abandon_on_peer_close : forall es e, e = PeerClose \/ e = PeerEof -> opened (final es) = true ->
     opened (fst (step (final es) e)) = false /\ In (OClosed (clock (final es))) (snd (step (final es) e)).
+Proof. intros es. exact (peer_close_closes_old cap T30 (final es)). Qed.
+
+(* the connection is closed LOCALLY by another task (connection.close() / pairing.close()) while
+   requests are in flight and/or queued on the semaphore: the transport is closed and every written
+   and every queued request completes with the disconnection error in that very step, unwritten
+   ones stay unwritten (the same holds, by the same lemma, for PeerClose and PeerEof) *)
+Theorem abandon_on_local_close : forall es e, e = PeerClose \/ e = PeerEof \/ e = LocalClose ->
+    opened (final es) = true ->
+    opened (fst (step (final es) e)) = false /\ In (OClosed (clock (final es))) (snd (step (final es) e)) /\
+    (forall r wt, In (r, wt) (inflight (final es)) ->
+                  In (ODone r Disconnected (clock (final es))) (snd (step (final es) e))) /\
+    (forall w, In w (waiters (final es)) ->
+               In (ODone w Disconnected (clock (final es))) (snd (step (final es) e))) /\
+    writes (snd (step (final es) e)) = [].
 Proof. intros es. exact (peer_close_closes cap T30 (final es)). Qed.
 
 (* ... and an abandoned connection stays abandoned: whatever happens afterwards, nothing
@@ -189,6 +203,11 @@ Example c08_history_peer_close :
   = [OWrote 0 0; ODone 0 Disconnected 0; ODone 1 Disconnected 0; OClosed 0; ODone 2 Disconnected 0].
 Proof. vm_compute. reflexivity. Qed.
 
+Example c08_history_local_close :
+  Disp.trace 1 T30c [Issue; Issue; Advance 7; LocalClose; Issue; Advance 122880]
+  = [OWrote 0 0; ODone 0 Disconnected 7; ODone 1 Disconnected 7; OClosed 7; ODone 2 Disconnected 7].
+Proof. vm_compute. reflexivity. Qed.
+
 Example c08_history_cap2 :
   Disp.trace 2 T30c [Issue; Issue; Issue; Data [(KHttp, 1%N); (KHttp, 2%N); (KHttp, 3%N)]]
   = [OWrote 0 0; OWrote 1 0; ODone 0 (Resp 1) 0; ODone 1 (Resp 2) 0; OCrash 0; ODone 2 Disconnected 0; OClosed 0].
@@ -210,6 +229,7 @@ Print Assumptions event_step_is_only_a_delivery.
 Print Assumptions abandon_on_cancel.
 Print Assumptions abandon_on_timeout.
 Print Assumptions abandon_on_peer_close.
+Print Assumptions abandon_on_local_close.
 Print Assumptions abandon_on_failure.
 Print Assumptions abandon_on_failure_late_issue.
 Print Assumptions unsolicited_response_closes.
